@@ -115,8 +115,19 @@ def cif_roles(tree):
     ser, des = private_calls(meth["serialize"]), private_calls(meth["deserialize"])
     if len(ser) != 2 or len(des) != 2:
         raise ValueError(f"CIFCategory.serialize/deserialize call other private methods than expected: {ser} {des}")
-    found["CIFCategory._serialize_single"], found["CIFCategory._serialize_looped"] = meth[ser[0]], meth[ser[1]]
-    found["CIFCategory._deserialize_looped"], found["CIFCategory._deserialize_single"] = meth[des[0]], meth[des[1]]
+
+    def has(fn_name, kind):
+        return any(isinstance(x, kind) for x in ast.walk(meth[fn_name]))
+    # the looped writer has a `for` statement (rows x columns), the single-row writer only a comprehension;
+    # the single-row reader has the `while` loop over the lines, the looped reader has none
+    loopw = [n for n in ser if has(n, ast.For)]
+    singlew = [n for n in ser if not has(n, ast.For)]
+    singler = [n for n in des if has(n, ast.While)]
+    loopr = [n for n in des if not has(n, ast.While)]
+    if not (len(loopw) == len(singlew) == len(singler) == len(loopr) == 1):
+        raise ValueError(f"cannot tell the single-row from the looped (de)serialiser: {ser} {des}")
+    found["CIFCategory._serialize_single"], found["CIFCategory._serialize_looped"] = meth[singlew[0]], meth[loopw[0]]
+    found["CIFCategory._deserialize_looped"], found["CIFCategory._deserialize_single"] = meth[loopr[0]], meth[singler[0]]
     return found
 
 
@@ -235,7 +246,7 @@ def named_constants(src, fps):
     c["dataPrefix"], c["dataSlice"] = _one(f["strs"], "string in _parse_data_block_name"), _one(f["ints"], "int in _parse_data_block_name")
     c["loopPrefix"] = _one(fps["cif._is_loop_start"]["strs"], "string in _is_loop_start")
     f = fps["cif._parse_category_name"]
-    if len(f["strs"]) != 2 or len(f["ints"]) != 2 or f["cmps"] != ["NotEq"]:
+    if len(f["strs"]) != 2 or len(f["ints"]) != 2 or len(f["cmps"]) != 1 or "find" not in f["calls"]:
         raise ValueError(f"_parse_category_name has another shape: {f}")
     c["catNameFirst"], c["catNameSep"] = f["strs"]
     c["catNameIndex"], c["catNameSliceStart"] = f["ints"]
@@ -244,7 +255,7 @@ def named_constants(src, fps):
         raise ValueError(f"_is_empty has another shape: {f}")
     c["commentChar"] = f["strs"][0]
     f = fps["cif._to_single"]
-    if len(f["strs"]) != 2 or f["ints"] != [0] or f["cmps"] != ["Eq"]:
+    if len(f["strs"]) != 2 or "join" not in f["calls"]:
         raise ValueError(f"_to_single has another shape: {f}")
     c["semiChar"], c["joinSep"] = f["strs"]
     # the tokeniser: located by what the statements contain, not by the position of a literal
